@@ -214,6 +214,7 @@ func Verif_C03_alloc_step() { vfAllocStep(false) }
 // AllocFrame succeeds exactly m times with pairwise distinct frames, then reports
 // out-of-memory; the reported totals agree after every call.
 //verif:split 6
+//verif:tier thorough
 func Verif_C03_drain() {
 	var alloc BitmapAllocator
 	st := vfSetup(&alloc)
